@@ -82,7 +82,12 @@ impl<'a> Reader<'a> {
             self.begin = 0;
         }
 
-        let bytes = self.stdin.read(&mut self.buf[self.end..]).unwrap();
+        let bytes = loop {
+            match self.stdin.read(&mut self.buf[self.end..]) {
+                Err(e) if e.kind() == std::io::ErrorKind::Interrupted => continue,
+                r => break r.unwrap(),
+            }
+        };
         if bytes == 0 {
             self.eof = true;
         }
